@@ -54,7 +54,8 @@ Qed.
 Definition ctx_only (o : Op) : Prop :=
   match o with
   | OCall _ _ _ _ _ _ _ _ _ _ _ _ _ | OModCall _ _ _ _ _ _ _ _ _ _ _ _ _ _
-  | OPause _ _ _ | OStart _ _ _ | OKill _ _ _ | OUpdateCtx _ _ _ _ _ _ _ _ => True
+  | OPause _ _ _ | OStart _ _ _ | OKill _ _ _ | OUpdateCtx _ _ _ _ _ _ _ _
+  | OModUpdate _ _ _ _ _ _ _ _ | OModPause _ _ | OModStart _ _ | OModKill _ _ => True
   | _ => False
   end.
 
@@ -71,6 +72,10 @@ Proof.
   - apply h_kill_spec in H. destruct H as (rc0 & _ & _ & _ & _ & ->). split; [ext_auto|reflexivity].
   - apply h_update_ctx_spec in H.
     destruct H as (rc0 & capo & _ & _ & _ & _ & _ & _ & _ & _ & _ & ->). split; [ext_auto|reflexivity].
+  - mod_shape H; (split; [ext_auto|reflexivity]).
+  - mod_shape H; (split; [ext_auto|reflexivity]).
+  - mod_shape H; (split; [ext_auto|reflexivity]).
+  - mod_shape H; (split; [ext_auto|reflexivity]).
 Qed.
 
 (* a context record that appears in a message step was created under a fresh id *)
@@ -107,6 +112,14 @@ Proof.
     destruct H as (rc0 & capo & Erc0 & _ & _ & _ & _ & _ & _ & _ & _ & ->).
     exfalso. eapply (Hput s); eauto using SEq_refl. reflexivity.
   - exfalso. eapply Hne. reflexivity.
+  - apply h_mod_update_gen in H. destruct H as (rc0 & t & capo & Erc0 & _ & _ & ->).
+    exfalso. eapply (Hput s); eauto using SEq_refl. reflexivity.
+  - apply h_mod_pause_spec in H. destruct H as (rc0 & Erc0 & _ & _ & _ & ->).
+    exfalso. eapply (Hput s); eauto using SEq_refl. reflexivity.
+  - apply h_mod_start_spec in H. destruct H as (rc0 & Erc0 & _ & _ & ->).
+    exfalso. eapply (Hput s); eauto using SEq_refl. apply ctxs_started.
+  - apply h_mod_kill_spec in H. destruct H as (rc0 & Erc0 & _ & _ & ->).
+    exfalso. eapply (Hput s); eauto using SEq_refl. reflexivity.
 Qed.
 
 Lemma CtxMono_msg cfg s o s' :
@@ -1378,6 +1391,10 @@ Proof.
   - apply h_kill_spec in H. destruct H as (rc0 & _ & _ & _ & _ & ->). cm_auto.
   - apply h_update_ctx_spec in H.
     destruct H as (rc0 & capo & _ & _ & _ & _ & _ & _ & _ & _ & _ & ->). cm_auto.
+  - mod_shape H; cm_auto.
+  - mod_shape H; cm_auto.
+  - mod_shape H; cm_auto.
+  - mod_shape H; cm_auto.
 Qed.
 
 Lemma ND_slash cfg s r s1 : slash cfg s r = Ok s1 -> ND s s1.
